@@ -65,3 +65,18 @@ pub struct VerifSnapshot {
     pub max_transactions: usize,
     pub pending_events: usize,
 }
+
+/// Positions (indices into `attrs`) of the attributes the agent's own
+/// protected-attribute iterator yields, in order.
+pub fn verif_protected_positions(attrs: &[stun_rs::StunAttribute]) -> Vec<usize> {
+    use crate::ProtectedAttributeIterator;
+    attrs
+        .protected_iter()
+        .map(|a| {
+            attrs
+                .iter()
+                .position(|b| std::ptr::eq(a, b))
+                .expect("yielded attribute is an element of the slice")
+        })
+        .collect()
+}
